@@ -1,6 +1,7 @@
 import Rivaas.Proto
 import Rivaas.Spec.Log
 import Rivaas.Spec.LogBuf
+import Rivaas.Spec.LogConfig
 /-
 Driver for C20.
 
@@ -179,6 +180,66 @@ def stepZ (id : String) (inp obs : List String) : String :=
     verdict id (runs == m) (LogBuf.stressOK logged runs) "-" ("R " ++ enc)
   | _, _ => s!"{id} bad-case"
 
+/-! construction + acceptance cases: `<id> O <nopts> <opt…> <ncalls> <call…> => N <res> <hasInfo> [<level> <src> <dbg> <n> <acc…>] | P` -/
+open Rivaas.LogConfig in
+def stepO (id : String) (inp obs : List String) : String :=
+  let pOpt : P Opt := do
+    let k ← tok
+    if k == "h" then .handler <$> nat
+    else if k == "l" then .level <$> nat
+    else if k == "dl" then pure .debugLevel
+    else if k == "s" then .source <$> bool
+    else if k == "dm" then .debugMode <$> bool
+    else if k == "sa" then do let i ← int; let t ← int; pure (.sampling i t)
+    else if k == "o" then .output <$> bool
+    else if k == "c" then .custom <$> bool
+    else failure
+  let pCall : P Call := do
+    let k ← tok
+    if k == "L" then .log <$> nat
+    else if k == "V" then .setLevel <$> nat
+    else if k == "H" then pure .shutdown
+    else failure
+  let pIn : P (List Opt × List Call) := do
+    let os ← list pOpt
+    let cs ← list pCall
+    pure (os, cs)
+  let pOut : P (Option (Nat × Option (Info × List Bool))) := do
+    let k ← tok
+    if k == "P" then pure none
+    else if k == "N" then do
+      let res ← nat
+      let has ← bool
+      if has then do
+        let lv ← nat
+        let src ← bool
+        let dbg ← bool
+        let acc ← list bool
+        pure (some (res, some ({ level := lv, addSource := src, debugMode := dbg }, acc)))
+      else pure (some (res, none))
+    else failure
+  match runP pIn inp, runP pOut obs with
+  | some (opts, calls), some o =>
+    let c := configure opts
+    let mres : Nat := match newRes c with | .ok => 0 | .invalid => 1 | .badHandler => 2
+    let driven := mres == 0 && !c.useCustom
+    let minfo : Info := { level := c.level, addSource := c.addSource, debugMode := c.debugMode }
+    let macc := accepted opts calls
+    let encB (bs : List Bool) := String.join (bs.map fun b => if b then " 1" else " 0")
+    let mobs := s!"N {mres} " ++ (if driven then s!"1 {minfo.level} {if minfo.addSource then 1 else 0} {if minfo.debugMode then 1 else 0} {macc.length}" ++ encB macc else "0")
+    match o with
+    | none => verdict id false false "-" mobs
+    | some (res, extra) =>
+      let mi := res == mres && (match extra with
+        | some (info, acc) => driven && info == minfo && acc == macc
+        | none => !driven)
+      -- the oracle on what the implementation did: accepted iff valid; then the promised info and acceptance
+      let s := (res == 0) == specValid opts && (match extra with
+        | some (info, acc) => info == specInfo opts && acc == specAccepted opts calls
+        | none => true)
+      verdict id mi s "-" mobs
+  | _, _ => s!"{id} bad-case"
+
 def step (line : String) : String :=
   match splitCase line with
   | none => "? bad-line"
@@ -187,6 +248,7 @@ def step (line : String) : String :=
     | "R" :: rest => stepR id rest obs
     | "B" :: rest => stepB id rest obs
     | "Z" :: rest => stepZ id rest obs
+    | "O" :: rest => stepO id rest obs
     | _ => s!"{id} bad-case"
 
 end Rivaas.DriverC20
